@@ -153,6 +153,11 @@ fn main() {
         }
     }
     run(cfg, move |ctx| {
+        // initialise the runtime (a lazy std Once) from this thread alone, before anything else can race for it
+        {
+            let h = unsafe { may::coroutine::Builder::new().name("warmup".into()).spawn(|| {}).unwrap() };
+            let _ = h.join();
+        }
         for _ in 0..n {
             let d = DURS[(ctx.rand() % DURS.len() as u64) as usize];
             let a = armed_ns(d, in_co);
